@@ -1,10 +1,15 @@
 import importlib.util
 import os
 
-_h = os.path.join(os.path.dirname(os.path.dirname(os.path.abspath(__file__))), 'contracts_common', 'c05spec.py')
-_s = importlib.util.spec_from_file_location('c05spec', _h)
-c05 = importlib.util.module_from_spec(_s)
-_s.loader.exec_module(c05)
+import sys
+
+c05 = sys.modules.get('c05spec_shared')   # one shared instance per process (site extraction is cached in it)
+if c05 is None:
+    _h = os.path.join(os.path.dirname(os.path.dirname(os.path.abspath(__file__))), 'contracts_common', 'c05spec.py')
+    _s = importlib.util.spec_from_file_location('c05spec_shared', _h)
+    c05 = importlib.util.module_from_spec(_s)
+    sys.modules['c05spec_shared'] = c05
+    _s.loader.exec_module(c05)
 c05.ensure_header()
 
 PROPERTIES = ['C05', 'C02']
